@@ -58,8 +58,8 @@ Definition is_kwt (x : tree) : bool := match x with Kw _ => true | _ => false en
 
 Definition nosemi (l : list tree) : Prop := match l with Kw _ :: _ => False | _ => True end.
 
-Definition sfx_ok (ts : list token) (mx : option Z) (x : nat * sfx) : Prop :=
-  let '(_, (tag, _, _, sh, rest)) := x in CTXL ts rest mx /\ sh = false.
+Definition sfx_ok (ts : list token) (nts : bool) (mx : option Z) (x : nat * sfx) : Prop :=
+  let '(_, (tag, _, _, sh, rest)) := x in CTXL ts nts rest mx /\ sh = false.
 
 Section Acc.
 Variable ts : list token.
@@ -176,10 +176,10 @@ Ltac after_term i t Hs Hk :=
       destruct (spos ts p i t s1 ltac:(lia) Hs) as (Hle & Hlt & Hn);
       try (is_var s1; subst s1);
       match goal with
-      | HC : ValidDomain1.CTX ts (Kw i) ?mx |- _ =>
-          pose proof (CTX_kw ts i mx HC); pose proof (follow_known ts _ mx _ i t _ Hs Hk)
-      | HC : ValidDomain1.CTX ts (Tok i ?t0) ?mx |- _ =>
-          pose proof (CTX_tok ts i t0 mx HC); pose proof (follow_known ts _ mx _ i t _ Hs Hk)
+      | HC : ValidDomain1.CTX ts _ (Kw i) ?mx |- _ =>
+          pose proof (CTX_kw ts _ i mx HC); pose proof (follow_known ts _ mx _ i t _ Hs Hk)
+      | HC : ValidDomain1.CTX ts _ (Tok i ?t0) ?mx |- _ =>
+          pose proof (CTX_tok ts _ i t0 mx HC); pose proof (follow_known ts _ mx _ i t _ Hs Hk)
       | _ => idtac
       end
   end.
@@ -218,8 +218,8 @@ Ltac all2v_tac :=
 
 Ltac open_node :=
   match goal with
-  | HC : ValidDomain1.CTX ?ts (Node ?tag ?a ?b ?sh ?fs) ?mx |- _ =>
-      is_var sh; pose proof (CTX_sh ts tag a b sh fs mx HC eq_refl); subst sh; apply CTX_node in HC; ctx_split HC
+  | HC : ValidDomain1.CTX ?ts _ (Node ?tag ?a ?b ?sh ?fs) ?mx |- _ =>
+      is_var sh; pose proof (CTX_sh ts _ tag a b sh fs mx HC eq_refl); subst sh; apply CTX_node in HC; ctx_split HC
   end.
 
 Ltac shape_ev :=
@@ -236,15 +236,16 @@ Ltac rt_call L :=
 
 Section Step.
 Variable ts : list token.
+Variable nts : bool.
 Local Notation SS := (sstream ts).
 Local Notation lim := (lim ts).
 Local Notation len := (zlen ts).
-Local Notation CTX := (CTX ts).
-Local Notation CTXL := (CTXL ts).
-Local Notation den := (den ts).
-Local Notation all2v := (all2v ts).
-Local Notation ditems := (ditems ts).
-Local Notation dom := (dom ts).
+Local Notation CTX := (CTX ts nts).
+Local Notation CTXL := (CTXL ts nts).
+Local Notation den := (den ts nts).
+Local Notation all2v := (all2v ts nts).
+Local Notation ditems := (ditems ts nts).
+Local Notation dom := (dom ts nts).
 
 (* ---------------------------------------------------------------- the statements *)
 Definition exp_ok (Gd : Z -> Prop) (m : M tree) : Prop :=
@@ -306,8 +307,10 @@ Definition varlist_loop_ok (Gd : Z -> Prop) (m : M (list tree)) : Prop :=
 
 Definition fields_loop_ok (Gd : Z -> Prop) (m : M (list tree)) : Prop :=
   forall p mx n l s', Gd p -> g_ftail n l (SS p) = Some s' -> CTXL l mx -> follow (anyof [psym "}"%bs]) mx s' ->
+  (nts = true -> Nat.even (length l) = true) ->                                                                (* VD *)
   RT ts (m (p, mx)) mx (fun tl p' => SS p' = s' /\ p <= p' /\
-                          (all2v l tl = true /\ fields_strict tl = true /\ (l = [] -> tl = []))).      (* VD *)
+                          (all2v l tl = true /\ fields_strict tl = true /\ (l = [] -> tl = []) /\
+                           (nts = true -> last_hid tl = false))).                                              (* VD *)
 
 Definition elseif_loop_ok (Gd : Z -> Prop) (m : M (list tree)) : Prop :=
   forall p mx n l s', Gd p -> g_elseifs n l (SS p) = Some s' -> CTXL l mx -> follow (anyof [pkw "end"%bs]) mx s' ->
@@ -317,7 +320,7 @@ Definition elseif_loop_ok (Gd : Z -> Prop) (m : M (list tree)) : Prop :=
                         (l2 = [] \/ exists el b, l2 = [el; Lst [PNone; b]])).
 
 Definition precur_ok (Gd : Z -> Prop) (m : tree -> M tree) : Prop :=
-  forall l first gfirst p mx s', Gd p -> g_sufs l (SS p) = Some s' -> Forall (sfx_ok ts mx) l -> follow fcont mx s' ->
+  forall l first gfirst p mx s', Gd p -> g_sufs l (SS p) = Some s' -> Forall (sfx_ok ts nts mx) l -> follow fcont mx s' ->
   den gfirst first = true -> is_hidden first = false -> is_none first = false ->
   (l <> [] -> is_paren first = false) ->                                                                       (* VD *)
   RT ts (m first (p, mx)) mx (fun t p' => SS p' = s' /\ p <= p' /\ den (wraps gfirst l) t = true /\
@@ -385,7 +388,7 @@ Proof.
   intros HG Hg HC Hnl. destruct HG as [Hp0 HGk]. unfold namelist in Hg.
   destruct g as [tag a b sh fs| | | | | | | |]; try discriminate. destruct fs as [|[| |l| | | | | |] [|? ?]]; try discriminate.
   destruct (tag =? tNameList) eqn:Et; [|discriminate]. apply Z.eqb_eq in Et. subst tag.
-  pose proof (CTX_sh ts _ _ _ _ _ _ HC eq_refl) as ->.
+  pose proof (CTX_sh ts _ _ _ _ _ _ _ HC eq_refl) as ->.
   apply CTX_node in HC. apply CTXL_cons in HC. destruct HC as [HC _]. apply CTX_lst in HC.
   destruct l as [|x r]; cbn [sep_list] in Hg; [discriminate|]. osplit Hg E. apply CTXL_cons in HC. destruct HC as [HC1 HC].
   tinv E. unfold namelist_def. prim. hit.
@@ -425,7 +428,7 @@ Lemma L_funcname p mx g s' : G' p -> g_funcname g (SS p) = Some s' -> CTX g mx -
 Proof.
   intros HG Hg HC Hf. destruct HG as [Hp0 HGk]. unfold g_funcname in Hg.
   destruct g as [tag a b sh fs| | | | | | | |]; try discriminate. destruct fs as [|[| |path| | | | | |] m]; try discriminate.
-  gtag Hg tFunctionName. pose proof (CTX_sh ts _ _ _ _ _ _ HC eq_refl) as ->.
+  gtag Hg tFunctionName. pose proof (CTX_sh ts _ _ _ _ _ _ _ HC eq_refl) as ->.
   apply CTX_node in HC. apply CTXL_cons in HC. destruct HC as [HCp HCm]. apply CTX_lst in HCp.
   osplit Hg E. destruct path as [|x r]; cbn [sep_list] in E; [discriminate|]. osplit E E1.
   apply CTXL_cons in HCp. destruct HCp as [HC1 HCp]. tinv E1. unfold funcname_def. prim. hit.
@@ -448,7 +451,7 @@ Lemma R_exp p mx n g s' : G p -> g_exp n g (SS p) = Some s' -> CTX g mx -> follo
   RT ts (r_exp R (p, mx)) mx (fun t p' => SS p' = s' /\ p < p' /\ den g t = true /\ isnode t p' /\ exp_shape t).
 Proof.
   intros HG Hg HC Hf. destruct (g_exp_items _ _ _ _ Hg) as (m & Hm).
-  destruct (c_exp _ _ HR p mx m (items_of g) s' HG Hm (CTX_items ts g mx HC) Hf) as (t & p' & E & Hl' & Q1 & Q2 & Q3 & Q4 & Q5 & Q6 & Q7).
+  destruct (c_exp _ _ HR p mx m (items_of g) s' HG Hm (CTX_items ts _ g mx HC) Hf) as (t & p' & E & Hl' & Q1 & Q2 & Q3 & Q4 & Q5 & Q6 & Q7).
   exists t, p'. split; [exact E|]. split; [exact Hl'|]. repeat split; try assumption.
   apply den_of_items; try assumption. eexists _, _, _. exact Hg.
 Qed.
@@ -468,7 +471,7 @@ Proof.
     split; [|split; [|split]].
     - apply andb_true_iff. split.
       + cbn [in_frag forallb]. change (in_frag (Paren i j x)) with (in_frag x). cbn [in_frag] in H1. rewrite H1. reflexivity.
-      + cbn [g_no_paren_suffix forallb]. change (is_suffix_tag tExpValue) with false. cbv iota. cbn [g_no_paren_suffix] in H1g. rewrite H1g. reflexivity.
+      + apply gcond_expvalue, H1g.
     - cbn [tokdata_ok forallb]. cbn [tokdata_ok] in H2. rewrite H2. reflexivity.
     - intros y Hy. apply H3. cbn [short_ifs flat_map app] in Hy. rewrite app_nil_r in Hy. exact Hy.
     - intros y Hy. apply H4. rewrite leaves_node1 in Hy. exact Hy. }
@@ -505,7 +508,7 @@ Lemma L_explist p mx n g s' : G p -> g_explist n g (SS p) = Some s' -> CTX g mx 
 Proof.
   intros HG Hg HC Hf. destruct HG as [Hp0 HGk]. destruct n; [discriminate|]. cbn [g_explist] in Hg.
   destruct g as [tag a b sh fs| | | | | | | |]; try discriminate. destruct fs as [|[| |l| | | | | |] [|? ?]]; try discriminate.
-  gtag Hg tExpList. pose proof (CTX_sh ts _ _ _ _ _ _ HC eq_refl) as ->.
+  gtag Hg tExpList. pose proof (CTX_sh ts _ _ _ _ _ _ _ HC eq_refl) as ->.
   apply CTX_node in HC. apply CTXL_cons in HC. destruct HC as [HC _]. apply CTX_lst in HC.
   destruct l as [|x r]; cbn [sep_list] in Hg; [discriminate|]. osplit Hg E. apply CTXL_cons in HC. destruct HC as [HC1 HC].
   unfold explist_def. prim.
@@ -556,7 +559,7 @@ Proof.
   intros HG Hg HC Hf. destruct HG as [Hp0 HGk]. destruct n; [discriminate|]. cbn [g_field] in Hg.
   destruct g as [tag a b sh fs| | | | | | | |]; try discriminate. unfold field_def. prim.
   gtag Hg tFieldExpKey.
-  { gmatch Hg. pose proof (CTX_sh ts _ _ _ _ _ _ HC eq_refl) as ->. apply CTX_node in HC. ctx_split HC.
+  { gmatch Hg. pose proof (CTX_sh ts _ _ _ _ _ _ _ HC eq_refl) as ->. apply CTX_node in HC. ctx_split HC.
     osplit Hg E1. osplit Hg E2. osplit Hg E3. osplit Hg E4. tinv E1. hit.
     pose proof (hd_sym _ _ _ _ E3) as Hh.
     eapply RT_bind; [eapply R_exp; [gd | exact E2 | eassumption | fhd Hh]|].
@@ -568,14 +571,14 @@ Proof.
     destruct (isnode_facts _ _ Q9) as (Qh2 & Qn2 & _). rewrite bind_assert by exact Qn2.
     rewrite mk_eq. apply RT_ok; [lia|]. split; [exact Q6|]. split; [lia|]. split; [|split; reflexivity]. den_side. }
   gtag Hg tFieldNamedKey.
-  { gmatch Hg. pose proof (CTX_sh ts _ _ _ _ _ _ HC eq_refl) as ->. apply CTX_node in HC. ctx_split HC.
+  { gmatch Hg. pose proof (CTX_sh ts _ _ _ _ _ _ _ HC eq_refl) as ->. apply CTX_node in HC. ctx_split HC.
     osplit Hg E1. osplit Hg E2. tinv E1. miss. hit. tinv E2. hit.
     eapply RT_bind; [eapply R_exp; [gd | exact Hg | eassumption | fw]|].
     cbv beta. intros e2 p2 Hl_p2 (Q6 & Q7 & Q8 & Q9 & Q10).
     destruct (isnode_facts _ _ Q9) as (Qh2 & Qn2 & _). rewrite bind_assert by exact Qn2.
     rewrite mk_eq. apply RT_ok; [lia|]. split; [exact Q6|]. split; [lia|]. split; [|split; reflexivity]. den_side. }
   gtag Hg tFieldExp. gmatch Hg. match type of Hg with g_exp _ ?x _ = _ => rename x into ge end.
-  pose proof (CTX_sh ts _ _ _ _ _ _ HC eq_refl) as ->. apply CTX_node in HC. ctx_split HC.
+  pose proof (CTX_sh ts _ _ _ _ _ _ _ HC eq_refl) as ->. apply CTX_node in HC. ctx_split HC.
   pose proof (g_exp_head _ _ _ _ Hg) as Hh. pose proof Hh as (hi & ht & r0 & Hs & Ha).
   assert (Hf1 : follow (nomatch [psym "["%bs]) mx (SS p)) by (fhd Hh). miss.
   assert (Hrest : RT ts ((_ <- set_pos p;; e <- r_exp R;; (if is_none e then ret e else mk tFieldExp p [e])) (p, mx)) mx
@@ -611,7 +614,7 @@ Proof. reflexivity. Qed.
 
 Lemma L_fields_loop : fields_loop_ok G' (fields_loop_def ts R).
 Proof.
-  intros p mx n l s' HG Hg HC Hf. destruct HG as [Hp0 HGk].
+  intros p mx n l s' HG Hg HC Hf Hev. destruct HG as [Hp0 HGk].
   destruct l as [|c r']; cbn [g_ftail] in Hg.
   - unfold fields_loop_def. injection Hg as <-. miss. miss. rewrite ret_eq. apply RT_ok; [lia|]. repeat split; first [lia | reflexivity].
   - osplit Hg E. apply CTXL_cons in HC. destruct HC as [HC1 HC].
@@ -627,14 +630,15 @@ Proof.
     destruct n; [discriminate|]. rewrite g_fields_unfold in Hg. destruct r' as [|f r''].
     + injection Hg as <-. rewrite (bind_ok _ _ _ _ _ (L_field_none (i + 1) mx ltac:(gd) Hf)).
       cbn [is_none strip_paren]. rewrite ret_eq. apply RT_ok; [lia|]. split; [reflexivity|]. split; [lia|].
-      split; [reflexivity|]. split; [reflexivity | discriminate].                                               (* VD *)
+      split; [reflexivity|]. split; [reflexivity|]. split; [discriminate|]. intros Hn. discriminate (Hev Hn).    (* VD *)
     + osplit Hg E2. apply CTXL_cons in HC. destruct HC as [HC2 HC].
       eapply RT_bind; [eapply L_field; [gd | exact E2 | exact HC2 | eapply ftail_follow; eassumption]|].
       cbv beta. intros f1 p1 Hl_p1 (Q1 & Q2 & Q3 & Q4 & Q5). subst s. rewrite Q4.
-      eapply RT_bind; [eapply (c_fields_loop _ _ HR); [gd | exact Hg | exact HC | exact Hf]|].
-      cbv beta. intros tl p' Hl_px (Q6 & Q7 & Q8 & Q8s & _). rewrite ret_eq. apply RT_ok; [lia|]. split; [exact Q6|]. split; [lia|].
-      split; [all2v_tac; exact Q8|]. split; [|discriminate].                                                    (* VD *)
-      change (fields_strict (Kw i :: f1 :: tl)) with (fields_strict (f1 :: tl)). rewrite fields_strict_cons by exact Q5. exact Q8s.
+      eapply RT_bind; [eapply (c_fields_loop _ _ HR); [gd | exact Hg | exact HC | exact Hf | exact Hev]|].
+      cbv beta. intros tl p' Hl_px (Q6 & Q7 & Q8 & Q8s & _ & Q8h). rewrite ret_eq. apply RT_ok; [lia|]. split; [exact Q6|]. split; [lia|].
+      split; [all2v_tac; exact Q8|]. split; [|split; [discriminate|]].                                          (* VD *)
+      * change (fields_strict (Kw i :: f1 :: tl)) with (fields_strict (f1 :: tl)). rewrite fields_strict_cons by exact Q5. exact Q8s.
+      * intros Hn. apply last_hid_cons2; [exact Q5 | exact (Q8h Hn)].
 Qed.
 
 Lemma L_table p mx n g s' : G' p -> g_table n g (SS p) = Some s' -> CTX g mx ->
@@ -642,22 +646,22 @@ Lemma L_table p mx n g s' : G' p -> g_table n g (SS p) = Some s' -> CTX g mx ->
 Proof.
   intros HG Hg HC. destruct HG as [Hp0 HGk]. destruct n; [discriminate|]. cbn [g_table] in Hg.
   destruct g as [tag a b sh fs| | | | | | | |]; try discriminate. gmatch Hg. gtag Hg tTableConstructor.
-  pose proof (CTX_sh ts _ _ _ _ _ _ HC eq_refl) as ->. apply CTX_node in HC. ctx_split HC. apply CTX_lst in HC1.
+  pose proof (CTX_sh ts _ _ _ _ _ _ _ HC eq_refl) as ->. pose proof (CTX_gnts _ _ _ _ HC) as Hgn. apply CTX_node in HC. ctx_split HC. apply CTX_lst in HC1.
   osplit Hg E1. osplit Hg E2. tinv E1. unfold tableconstructor_def. prim. hit.
   pose proof (hd_sym _ _ _ _ Hg) as Hh.
   assert (Hfe : follow (anyof [psym "}"%bs]) mx s0) by (fhd Hh).
   destruct n; [discriminate|]. rewrite g_fields_unfold in E2. destruct l as [|f r].
   - injection E2 as <-. rewrite (bind_ok _ _ _ _ _ (L_field_none (i + 1) mx ltac:(gd) Hfe)).
-    eapply RT_bind; [eapply (L_fields_loop (i + 1) mx n []); [gd | reflexivity | constructor | exact Hfe]|].
-    cbv beta. intros tl p1 Hl_p1 (Q1 & Q2 & Q3 & _ & Q3e). rewrite (Q3e eq_refl). rewrite <- Q1 in Hg. tinv Hg. hit. rewrite mk_eq. apply RT_ok; [lia|].   (* VD *)
+    eapply RT_bind; [eapply (L_fields_loop (i + 1) mx n []); [gd | reflexivity | constructor | exact Hfe | reflexivity]|].
+    cbv beta. intros tl p1 Hl_p1 (Q1 & Q2 & Q3 & _ & Q3e & _). rewrite (Q3e eq_refl). rewrite <- Q1 in Hg. tinv Hg. hit. rewrite mk_eq. apply RT_ok; [lia|].   (* VD *)
     split; [reflexivity|]. split; [lia|]. split; [|split; reflexivity]. cbn [is_none strip_paren app]. den_side.
   - osplit E2 E3. apply CTXL_cons in HC1. destruct HC1 as [HCf HCr].
     eapply RT_bind; [eapply L_field; [gd | exact E3 | exact HCf | eapply ftail_follow; eassumption]|].
     cbv beta. intros f1 p1 Hl_p1 (Q1 & Q2 & Q3 & Q4 & Q5). subst s.
-    eapply RT_bind; [eapply L_fields_loop; [gd | exact E2 | exact HCr | exact Hfe]|].
-    cbv beta. intros tl p2 Hl_p2 (Q6 & Q7 & Q8 & Q8s & _). subst s0. tinv Hg. hit. rewrite mk_eq. apply RT_ok; [lia|].   (* VD *)
+    eapply RT_bind; [eapply L_fields_loop; [gd | exact E2 | exact HCr | exact Hfe | intros Hn; exact (gnts_table_tail _ _ _ _ _ _ _ (Hgn Hn))]|].
+    cbv beta. intros tl p2 Hl_p2 (Q6 & Q7 & Q8 & Q8s & _ & Q8h). subst s0. tinv Hg. hit. rewrite mk_eq. apply RT_ok; [lia|].   (* VD *)
     split; [reflexivity|]. split; [lia|]. split; [|split; reflexivity]. rewrite Q4. cbn [app].
-    rewrite den_node; [all2v_go | reflexivity |]. apply loc_table. rewrite fields_strict_cons by exact Q5. exact Q8s.
+    rewrite den_node; [all2v_go | reflexivity |]. apply loc_table; [rewrite fields_strict_cons by exact Q5; exact Q8s | exact Q8h].
 Qed.
 
 (* ---------------------------------------------------------------- arguments *)
@@ -676,7 +680,7 @@ Proof.
   intros HG Hg HC. destruct HG as [Hp0 HGk]. destruct n; [discriminate|]. unfold args_def. prim.
   destruct g as [tag a b sh fs|i0 t0| | | | | | |]; try discriminate.
   - cbn [g_args] in Hg. gtag Hg tFunctionArgs.
-    + pose proof (CTX_sh ts _ _ _ _ _ _ HC eq_refl) as ->. apply CTX_node in HC.
+    + pose proof (CTX_sh ts _ _ _ _ _ _ _ HC eq_refl) as ->. apply CTX_node in HC.
       destruct fs as [|o [|el [|c [|? ?]]]]; try discriminate; try (exfalso; gmatch Hg; fail).
       ctx_split HC. change (g_args (S n) (Node tFunctionArgs a b false [o; el; c]) (SS p) = Some s') in Hg.
       apply args_paren_inv in Hg. destruct Hg as [[-> Hg]|[Hne Hg]].
@@ -769,7 +773,7 @@ Proof.
   destruct g as [tag a b sh fs| | | | | | | |]; try discriminate. destruct fs as [|o r]; [discriminate|].
   assert (Ht : tag = tFunctionBody).
   { cbn [g_funcbody] in Hg. destruct (tag =? tFunctionBody) eqn:E; [apply Z.eqb_eq in E; exact E | discriminate]. }
-  subst tag. pose proof (CTX_sh ts _ _ _ _ _ _ HC eq_refl) as ->. apply CTX_node in HC.
+  subst tag. pose proof (CTX_sh ts _ _ _ _ _ _ _ HC eq_refl) as ->. apply CTX_node in HC.
   apply funcbody_inv in Hg. destruct Hg as (s1 & E0 & nl & dd & c & bd & e & tl & -> & Hcases).
   apply CTXL_cons in HC. destruct HC as [HCo HC]. apply CTXL_cons in HC. destruct HC as [HCnl HC].
   apply CTXL_app in HC. destruct HC as [HCtl HC]. ctx_split HC.
@@ -816,7 +820,7 @@ Lemma L_function p mx n a b sh f body s' : G' p ->
   RT ts (function_def ts R (p, mx)) mx (fun t p' => SS p' = s' /\ p < p' /\ den (Node tFunction a b sh [f; body]) t = true /\
                                                  is_none t = false /\ is_hidden t = false).
 Proof.
-  intros HG Hg HC. destruct HG as [Hp0 HGk]. pose proof (CTX_sh ts _ _ _ _ _ _ HC eq_refl) as ->.
+  intros HG Hg HC. destruct HG as [Hp0 HGk]. pose proof (CTX_sh ts _ _ _ _ _ _ _ HC eq_refl) as ->.
   apply CTX_node in HC. ctx_split HC. osplit Hg E1. tinv E1. unfold function_def. prim. hit.
   eapply RT_bind; [eapply L_funcbody; [gd | exact Hg | eassumption]|].
   cbv beta. intros b1 p1 Hl_p1 (Q1 & Q2 & Q3 & Q4 & Q5). rewrite bind_assert by exact Q4.
@@ -890,13 +894,13 @@ Proof.
 Qed.
 
 Lemma CTX_wraps_ok mx : forall l base s0 s', CTX (wraps base l) mx -> g_sufs l s0 = Some s' ->
-  CTX base mx /\ Forall (sfx_ok ts mx) l.
+  CTX base mx /\ Forall (sfx_ok ts nts mx) l.
 Proof.
   induction l as [|[n [[[[tag a] b] sh] rest]] l IH]; intros base s0 s' HC Hg; cbn [wraps g_sufs] in *.
   - split; [exact HC | constructor].
   - apply obind_some in Hg. destruct Hg as (s1 & E & Hg). destruct (IH _ _ _ HC Hg) as [HC1 HF].
     cbn [wrap1] in HC1. pose proof (g_suf_tag _ _ _ _ E) as Ht. cbn [sfx_tag] in Ht.
-    pose proof (CTX_sh ts _ _ _ _ _ _ HC1 Ht) as ->. apply CTX_node in HC1. apply CTXL_cons in HC1.
+    pose proof (CTX_sh ts _ _ _ _ _ _ _ HC1 Ht) as ->. apply CTX_node in HC1. apply CTXL_cons in HC1.
     destruct HC1 as [HCb HCr]. split; [exact HCb|]. constructor; [split; [exact HCr | reflexivity] | exact HF].
 Qed.
 
@@ -949,7 +953,7 @@ Proof.
     cbv beta. intros e1 p1 Hl_p1 (Q1 & Q2 & Q3 & Q4 & Q5). subst s1.
     apply eat_sym_inv in Hb. destruct Hb as (t2 & Hs2 & Hk2). destruct (spos ts p1 oj t2 s0 ltac:(lia) Hs2) as (Hle2 & Hlt2 & Hn2). subst s0.
     hit. destruct (isnode_facts _ _ Q4) as (Qh & Qn & _).
-    assert (Hl0 : l = []) by (eapply gnp_wraps_paren; [exact (CTX_gnp _ _ _ HC) | exact Hl]).                 (* VD *)
+    assert (Hl0 : l = []) by (eapply gnp_wraps_paren; [exact (CTX_gnp _ _ _ _ HC) | exact Hl]).                 (* VD *)
     eapply RT_conseq; [eapply (L_precur l _ (Paren oi oj x)); [gd | exact Hl | exact HS | exact Hf | | reflexivity | exact Qn | intros Hne; contradiction]|].
     + exact Q3.
     + cbv beta. intros tr p' Hl_px (Q6 & Q7 & Q8 & Q9 & Q10 & Q11). split; [exact Q6|]. split; [lia|].
@@ -1018,7 +1022,7 @@ Proof.
     split; [shape_no|]. split; [rewrite view_node; apply flat_exp_other; reflexivity|]. intros a0 b0 sh0 i1 j1 x1 Hx1; discriminate Hx1. }
   gtag Hg tExpValue. destruct fs as [|x [|y [|? ?]]]; try discriminate; try (exfalso; gmatch Hg; fail).
   - destruct x as [t2 xa xb xsh xfs|i0 t0| | | | | |oi oj x|]; try discriminate.
-    + pose proof (CTX_sh ts _ _ _ _ _ _ HC eq_refl) as ->. pose proof HC as HC'. apply CTX_node in HC'. ctx_split HC'.
+    + pose proof (CTX_sh ts _ _ _ _ _ _ _ HC eq_refl) as ->. pose proof HC as HC'. apply CTX_node in HC'. ctx_split HC'.
       gtag Hg tFunction.
       { gmatch Hg. pose proof Hg as Hg'. osplit Hg' E. pose proof (hd_kw _ _ _ _ E) as Hh.
         assert (Hf0 : follow (anyof [pkw "function"%bs]) mx (SS p)) by (fhd Hh). repeat miss.
@@ -1043,7 +1047,7 @@ Proof.
       * tinv Hg. repeat miss. hit. rewrite mk_eq. apply RT_ok; [lia|].
         split; [reflexivity|]. split; [lia|]. split; [den_side|]. split; [eexists _, _, _; reflexivity|].
         split; [shape_ev|]. split; [rewrite view_node; apply flat_exp_other; reflexivity|]. intros a0 b0 sh0 i1 j1 x1 Hx1; discriminate Hx1.
-    + pose proof (CTX_sh ts _ _ _ _ _ _ HC eq_refl) as ->. pose proof HC as HC'. apply CTX_node in HC'. ctx_split HC'.
+    + pose proof (CTX_sh ts _ _ _ _ _ _ _ HC eq_refl) as ->. pose proof HC as HC'. apply CTX_node in HC'. ctx_split HC'.
       eapply Hpre; [exact Hg | eassumption | reflexivity | reflexivity | reflexivity].
   - open_node. gmatch Hg; tinv Hg; repeat miss; hit; rewrite mk_eq; (apply RT_ok; [lia|]);
       (split; [reflexivity|]; split; [lia|]; split; [den_side|]; split; [eexists _, _, _; reflexivity|];
@@ -1086,13 +1090,13 @@ Proof.
     eapply RT_conseq; [eapply L_exp_term_operand; [exact HG | exact E | exact HCx | eapply chain_rest_follow; eassumption]|].
     cbv beta. intros t1 p1 Hl_p1 (Q1 & Q2 & Q3 & Q4 & Q5 & Q6 & Qp). subst s. split; [exact Q2|]. split; [exact Q4|]. split; [exact Q5|].
     split; [intros x0 [= <- _]; exact Q3|]. split; [intros a0 b0 sh0 i0 j0 x0 [= -> _]; eapply Qp; reflexivity|]. exists [x], r, n. split; [reflexivity|]. split; [discriminate|].
-    split; [|split; [exact (den_dom _ _ _ Q3) | exact Hg]]. pose proof (den_old _ _ _ Q3) as Q3o.                 (* VD *)
+    split; [|split; [exact (den_dom _ _ _ _ Q3) | exact Hg]]. pose proof (den_old _ _ _ _ Q3) as Q3o.                 (* VD *)
     rewrite Q6. rewrite all2d_cons. rewrite (denotes_not_hidden _ _ Q3o). unfold ParserComplete1.den in Q3o. rewrite Q3o. reflexivity. }
   destruct x as [| i0 t0 | | | | | | |]; try (apply Hop, Hg). clear Hop.
   destruct (tokp is_unop (Tok i0 t0) (SS p)) eqn:E; [|discriminate]. destruct HG as [Hp0 HGk].
   apply tokp_inv in E. destruct E as (i & t00 & t & [= <- <-] & Hs & Hu). rewrite is_unop_anyof in Hu.
   destruct (spos ts p i0 t s Hp0 Hs) as (Hle & Hlt & Hn). subst s.
-  pose proof (CTX_tok ts _ _ _ HCx) as Hlim.
+  pose proof (CTX_tok ts _ _ _ _ HCx) as Hlim.
   assert (Hf0 : follow (anyof gunops) mx (SS p)). { rewrite Hs. apply follow_head. exact Hu. }
   unfold exp_term_def. prim. repeat miss.
   rewrite (bind_ok _ _ _ _ _ (L_function_none p mx Hp0 ltac:(fw))). cbn [is_none strip_paren negb].
@@ -1127,7 +1131,7 @@ Proof.
     split; [exists []; split; [rewrite app_nil_r; reflexivity | reflexivity]|]. split; [intros _; split; reflexivity|]. split; [assumption | split; assumption].
   - osplit Hg E. apply CTXL_cons in HC. destruct HC as [HCb HCr].
     apply tokp_inv in E. destruct E as (i & t0 & t & -> & Hs & Hu). rewrite is_binop_anyof in Hu.
-    destruct (spos ts p i t s Hp0 Hs) as (Hle & Hlt & Hn). subst s. pose proof (CTX_tok ts _ _ _ HCb) as Hlim.
+    destruct (spos ts p i t s Hp0 Hs) as (Hle & Hlt & Hn). subst s. pose proof (CTX_tok ts _ _ _ _ HCb) as Hlim.
     rewrite (bind_accept_first_hit ts lua_binops _ p mx i t _ lua_binops_nt Hp0 Hs Hlim
                ltac:(eapply anyof_sub; [|exact Hu]; vm_compute; reflexivity)). cbv beta iota zeta.
     eapply RT_bind; [eapply L_exp_term_chain; [gd | exact Hg | exact HCr | exact Hf]|].
